@@ -592,14 +592,13 @@ func (b *Reader) SkipTo(ty, tag byte, require bool) (bool, error) {
 
 // ReadSliceInt8 reads []int8 for the given length and the require or optional sign.
 func (b *Reader) ReadSliceInt8(data *[]int8, len int32, require bool) error {
-	if len <= 0 {
-		return nil
-	}
-
-	if int(len) > b.buf.Len() {
-		return fmt.Errorf("read []int8 error: length %d exceeds the %d bytes left", len, b.buf.Len())
+	if len < 0 || int(len) > b.buf.Len() {
+		return fmt.Errorf("read []int8 error: length %d, %d bytes left", len, b.buf.Len())
 	}
 	*data = make([]int8, len)
+	if len == 0 {
+		return nil
+	}
 	_, err := b.buf.Read(*(*[]uint8)(unsafe.Pointer(data)))
 	if err != nil {
 		err = fmt.Errorf("read []int8 error:%v", err)
@@ -609,14 +608,13 @@ func (b *Reader) ReadSliceInt8(data *[]int8, len int32, require bool) error {
 
 // ReadSliceUint8 reads []uint8 force the given length and the require or optional sign.
 func (b *Reader) ReadSliceUint8(data *[]uint8, len int32, require bool) error {
-	if len <= 0 {
-		return nil
-	}
-
-	if int(len) > b.buf.Len() {
-		return fmt.Errorf("read []uint8 error: length %d exceeds the %d bytes left", len, b.buf.Len())
+	if len < 0 || int(len) > b.buf.Len() {
+		return fmt.Errorf("read []uint8 error: length %d, %d bytes left", len, b.buf.Len())
 	}
 	*data = make([]uint8, len)
+	if len == 0 {
+		return nil
+	}
 	_, err := b.buf.Read(*data)
 	if err != nil {
 		err = fmt.Errorf("read []uint8 error:%v", err)
